@@ -30,6 +30,7 @@ fn new_shared(n: usize) -> Arc<Shared> {
         empty_returns: AtomicUsize::new(0),
         unblocked_returns: AtomicUsize::new(0),
         foreign: AtomicUsize::new(0),
+        strays: AtomicUsize::new(0),
         exit_on_unblock: AtomicBool::new(false),
         sent: AtomicUsize::new(0),
         client_trouble: AtomicUsize::new(0),
@@ -110,6 +111,7 @@ fn workload_a(ctx: &Ctx, env: &Env, rng: &mut Rng, cs: u64) {
     let u = rng.range(0, c);
     let p = rng.range(0, 10);
     let nthreads = rng.range(1, 3);
+    let base_pushes = server.vsnap().pushes;
     let sh = new_shared(c);
     let mut rh = Vec::new();
     for i in 0..c {
@@ -163,6 +165,13 @@ fn workload_a(ctx: &Ctx, env: &Env, rng: &mut Rng, cs: u64) {
     // if u == c every receiver is gone and requests may legitimately stay queued
     let expect_all_delivered = u < c;
     let client_keepalive = cl.join().ok().flatten();
+    // every request written must have reached the queue before the trial is judged and wound
+    // down (a request still inside its connection thread would show up in the next trial)
+    if client_keepalive.is_some() && !wait_for(Duration::from_millis(1500), || server.vsnap().pushes >= base_pushes + p) {
+        rep.inconclusive("A: not every request reached the queue within 1.5 s");
+        wind_down(&server, &sh, rh);
+        return;
+    }
     let ok = wait_for(Duration::from_millis(1500), || {
         sh.unblocked_returns.load(Ordering::SeqCst) >= u && (!expect_all_delivered || sh.delivered.lock().unwrap().len() >= p)
     });
@@ -373,6 +382,13 @@ fn workload_b(ctx: &Ctx, env: &Env, rng: &mut Rng, cs: u64) {
         let exp = model.pop_front();
         let got = match r {
             Ok(Some(rq)) => {
+                if parse(rq.url()).map(|x| x.0) != Some(trial) {
+                    // not one of the requests this trial queued: something an earlier trial left
+                    // on its way; the call sequence no longer matches the model's premise
+                    let _ = lib(|| rq.respond(Response::from_string("stray")));
+                    rep.inconclusive("B: a request of an earlier trial arrived during the call sequence");
+                    return;
+                }
                 let id = parse(rq.url()).map(|x| x.2);
                 let _ = lib(|| rq.respond(Response::from_string("ok")));
                 format!("request {:?}", id)
@@ -455,6 +471,7 @@ fn workload_c(ctx: &Ctx, env: &Env, rng: &mut Rng, cs: u64) {
         }
     }
     let sh = new_shared(c);
+    let base_pushes = server.vsnap().pushes;
     let mut rh = Vec::new();
     for (i, s) in scripts.iter().enumerate() {
         let (srv, sh2, s) = (server.clone(), sh.clone(), s.clone());
@@ -493,6 +510,11 @@ fn workload_c(ctx: &Ctx, env: &Env, rng: &mut Rng, cs: u64) {
     let _ = ut.join();
     let client_keepalive = ct.join().ok().flatten();
     // let the last request reach the queue
+    if client_keepalive.is_some() && !wait_for(Duration::from_millis(1500), || server.vsnap().pushes >= base_pushes + p) {
+        rep.inconclusive("C: not every request reached the queue within 1.5 s");
+        wind_down(&server, &sh, rh);
+        return;
+    }
     sleep_us(1500);
     // quiescence: nothing is being pushed any more. A token (or request) queued while a receiver
     // is blocked in recv must not persist.
@@ -700,7 +722,12 @@ fn workload_t(ctx: &Ctx, env: &Env, rng: &mut Rng, cs: u64) {
     let over_us = over.as_micros() as u64;
     let t_us = t_ms * 1000;
     let lower = t_us.saturating_sub(1500);
-    let upper = 2 * t_us + 10 * over_us + 20_000;
+    // Scheduling latency on a machine that runs 16 workers (some of them pinned, with spinners)
+    // reaches tens of milliseconds and does not depend on T, whereas a defect in the timeout
+    // accounting (a wake-up that re-arms the full timeout) is late by multiples of T: the native
+    // bound is therefore decisive for the larger T only; the small ones are decided on Miri's
+    // virtual clock (scenario queue_timing).
+    let upper = 2 * t_us + 10 * over_us + 60_000.max(t_us / 2);
     let samples = samples.lock().unwrap().clone();
     let empties: Vec<u64> = samples.iter().filter(|s| !s.1).map(|s| s.0).collect();
     rep.inc("workload:T");
@@ -774,6 +801,10 @@ fn workload_t(ctx: &Ctx, env: &Env, rng: &mut Rng, cs: u64) {
 
 pub fn run_case(ctx: &Ctx, env: &Env, cs: u64, which: usize) {
     let mut rng = Rng::new(cs);
+    if !crate::p07::settle(&env.server) {
+        ctx.rep.inconclusive("connection tasks of earlier trials did not end within 3 s");
+        return;
+    }
     match which {
         0 => workload_a(ctx, env, &mut rng, cs),
         1 => workload_b(ctx, env, &mut rng, cs),
